@@ -17,7 +17,7 @@ def run(ctx):
     srvflow.run_check(
         ctx, design=DESIGN, edge_cfgs=EDGES, negs=NEGS, invariants=INV,
         corpus=["server_core.ndjson", "server_cmd.ndjson", "server_fault.ndjson"],
-        thorough_design=THOROUGH, nontrivial=nontrivial,
+        thorough_design=THOROUGH, nontrivial=nontrivial, random_flavour=('core', 'mix'), random_quick=200,
         rule="schedules = edge cover of the two-listener (TCP+UDS) and single-fault configs + corpus (pause/resume/stop, "
              "faults); the service-side call log (worker, token the service was built for, peer address = connection "
              "identity) is checked by TLC: one call per connection, by the worker it was dispatched to, for its own "
